@@ -26,6 +26,8 @@ class SimRib:
     def __init__(self):
         self.dests = {}          # net -> {'entries': [...], 'next': int}
         self.llgr = set()
+        self.badtoks = set()     # tokens whose next hop is unreachable (next-hop tracking)
+        self.stale = set()       # sources whose Source carries the GR stale flag
 
     def key(self, e):
         return (1 if e['src'] in self.llgr else 0, -(200 - 10 * e['tok'] - e['src']))
@@ -67,7 +69,8 @@ class SimRib:
                 d['next'] += 1
                 if not any(e['pid'] == pid for e in d['entries']):
                     break
-        e = dict(src=src, tok=tok, pid=pid, filt=filt, nhinv=nhinv)
+        e = dict(src=src, tok=tok, pid=pid, filt=filt, badnh=bool(nhinv),
+                 nhinv=bool(nhinv) or tok in self.badtoks)
         d['entries'].append(e)
         d['entries'].sort(key=self.key)
         new_best = self.best(d)
@@ -123,6 +126,39 @@ class SimRib:
             nb = None if nb is None else nb['pid']
             labels.append(('set', net, ob != nb, True, None, self.paths(d)))
         return labels
+
+    def nhv(self, tok, reachable):
+        """Table::update_nexthop_validity for the next hop of token tok"""
+        labels = []
+        self.badtoks.discard(tok)
+        if not reachable:
+            self.badtoks.add(tok)
+        for net in sorted(self.dests):
+            d = self.dests[net]
+            ob = self.best(d)
+            changed = False
+            for e in d['entries']:
+                if e['tok'] == tok and not e['badnh'] and e['nhinv'] != (not reachable):
+                    e['nhinv'] = not reachable
+                    changed = True
+            if changed:
+                labels.append(('set', net, ob is not self.best(d), True, None, self.paths(d)))
+        return labels
+
+    def restale(self, src):
+        """Table::restale (GR helper): the ranking has no ties here, so nothing moves"""
+        labels = []
+        for net in sorted(self.dests):
+            d = self.dests[net]
+            if not any(e['src'] == src for e in d['entries']):
+                continue
+            self.stale.add(src)
+            if any(e['src'] == src and not e['filt'] for e in d['entries']):
+                labels.append(('set', net, False, True, None, self.paths(d)))
+        return labels
+
+    def drop_stale(self, src):
+        return self.drop(src) if src in self.stale else []
 
     def restale_llgr(self, src):
         has = any(e['src'] == src for d in self.dests.values() for e in d['entries'])
@@ -183,6 +219,9 @@ def translate(c):
         elif t == 'drop': out.append(rib.drop(o[1]))
         elif t == 'llgr': out.append(rib.restale_llgr(o[1]))
         elif t == 'policy': out.append([('policy', o[1])])
+        elif t == 'nhv': out.append(rib.nhv(o[1], bool(o[2])))
+        elif t == 'stale': out.append(rib.restale(o[1]))
+        elif t == 'dropstale': out.append(rib.drop_stale(o[1]))
         else: out.append([(t,)])
     return out
 
@@ -291,7 +330,7 @@ def label_coq(l):
 
 
 OPC = {'ins': 0, 'rem': 1, 'drop': 2, 'llgr': 3, 'deliver': 4, 'flush': 5, 'register': 6, 'refresh': 7,
-       'unregister': 8, 'policy': 9}
+       'unregister': 8, 'policy': 9, 'nhv': 10, 'stale': 11, 'dropstale': 12}
 
 # what the code under verification currently does (see Model/ExportTx.v): how PendingTx
 # names an entry, and whether dump/refresh truncate before the visibility filters
@@ -337,7 +376,7 @@ class Prop:
     def case_to_val(self, c):
         g = c['cfg']
         cfg = [g['max'], int(g['aptx']), g['role'], g['addr'], int(g['cluster']), int(g['policy']),
-               int(LIMITED), [list(s) for s in g['srcs']]]
+               int(LIMITED), [list(s) for s in g['srcs']], g.get('shard', 0)]
         ops = []
         for o in c['ops']:
             ops.append([OPC[o[0]]] + [int(x) for x in o[1:]])
@@ -373,10 +412,10 @@ class Prop:
     # ---- generation
     def gen_cfg(self, rng, crowded=False):
         nsrc = rng.choice([3, 4]) if crowded else rng.choice([2, 3])
-        role = rng.choice([EBGP, EBGP, IBGP, RSC])
+        role = rng.choice([EBGP, EBGP, EBGP, IBGP, IBGP, RSC, RSC, RRC, CONFED])
         srcs = []
         for k in range(nsrc):
-            srole = rng.choice([EBGP, EBGP, IBGP, RSC] if role != RSC else [RSC, RSC, EBGP])
+            srole = rng.choice([EBGP, EBGP, EBGP, IBGP, IBGP, RSC, RRC, CONFED] if role != RSC else [RSC, RSC, EBGP])
             asn = LOCAL_ASN if srole in (IBGP, RRC) else 65010 + k
             srcs.append((k + 1, srole, asn))
         addr = rng.choice([1, 9, 9])           # 1 = the neighbour is also source 0 (echo)
@@ -410,8 +449,14 @@ class Prop:
                 ops.append(('rem', rng.randrange(nsrc), rng.randrange(nets)))
             elif x < 0.55:
                 ops.append(('drop', rng.randrange(nsrc)))
-            elif x < 0.58:
+            elif x < 0.57:
                 ops.append(('llgr', rng.randrange(nsrc)))
+            elif x < 0.59:
+                ops.append(('nhv', rng.randrange(3), int(rng.random() < 0.5)))
+            elif x < 0.60:
+                k_ = rng.randrange(nsrc)
+                if cfg['srcs'][k_][0] != cfg['addr']:      # not the observed neighbour itself
+                    ops.append((rng.choice(['stale', 'dropstale']), k_))
             elif x < 0.80:
                 ops.append(('deliver',))
             elif x < 0.93:
@@ -437,9 +482,137 @@ class Prop:
             ops.append(('flush',))
         return ops
 
+    # ---- directed classes, enumerated on every run (no randomness)
+    @staticmethod
+    def mkcfg(mx, role=EBGP, addr=9, cluster=False, policy=False, nsrc=3, srcs=None, shard=0):
+        if srcs is None:
+            srcs = [(k + 1, EBGP, 65010 + k) for k in range(nsrc)]
+        return dict(max=mx, aptx=mx > 1, role=role, addr=addr, cluster=cluster, policy=policy,
+                    srcs=srcs, shard=shard)
+
+    def directed(self):
+        import itertools
+        D, F, R = ('deliver',), ('flush',), ('register',)
+        out = []
+        def add(cls, cfg, ops):
+            out.append(dict(cfg=cfg, ops=list(ops), cls=cls))
+        # -- win: the add-path window / the best path, on both sides of send-max: send-max + 1
+        #    candidates of one prefix, every assignment of tokens {0, 2, 3 (policy-rejected)},
+        #    best candidate hidden (the neighbour's own route) or not, by dump and incrementally,
+        #    then removed first-to-last / last-to-first
+        for mx in (1, 2, 3):
+            k = mx + 1
+            for toks in itertools.product((0, 2, 3), repeat=k):
+                for addr in (9, 1):
+                    for pol in (False, True):
+                        cfg = self.mkcfg(mx, addr=addr, policy=pol, nsrc=k)
+                        ins = [('ins', j, 0, toks[j], 0, 0) for j in range(k)]
+                        rem = [('rem', j, 0) for j in range(k)]
+                        ops = ins + [R, F]
+                        for r in rem:
+                            ops += [r, D, F]
+                        add('win_dump', cfg, ops)
+                        ops = [R]
+                        for i_ in ins:
+                            ops += [i_, D]
+                        ops += [F]
+                        for r in reversed(rem):
+                            ops += [r, D]
+                        ops += [F]
+                        add('win_incr', cfg, ops)
+        # -- coal: what PendingTx holds for one key when several events of one prefix are
+        #    delivered between two flushes: every sequence of <= 3 events, from three initial states
+        al = [('ins', 0, 0, 0, 0, 0), ('ins', 0, 0, 1, 0, 0), ('rem', 0, 0), ('ins', 1, 0, 0, 0, 0), ('rem', 1, 0)]
+        for mx in (1, 2):
+            for init in ('absent', 'flushed', 'buffered'):
+                for n in (1, 2, 3):
+                    for seq in itertools.product(al, repeat=n):
+                        cfg = self.mkcfg(mx, nsrc=2)
+                        pre = {'absent': [R, F], 'flushed': [('ins', 0, 0, 2, 0, 0), R, F],
+                               'buffered': [('ins', 0, 0, 2, 0, 0), R]}[init]
+                        add('coal_' + init, cfg, pre + list(seq) + [D] * n + [F])
+        # -- ids: IdAllocator word boundaries (63/64/65, 127/128/129 live destinations), ids freed at
+        #    the first / last / boundary positions and taken again; three shard indices
+        for n in (63, 64, 65, 127, 128, 129):
+            for shard in (0, 1, 255):
+                cfg = self.mkcfg(1 if n % 2 else 2, nsrc=1, shard=shard)
+                ops = [('ins', 0, j, 0, 0, 0) for j in range(n)] + [R, F]
+                freed = sorted({0, 62, 63, 64, n - 2, n - 1} & set(range(n)))
+                for j in freed:
+                    ops += [('rem', 0, j)]
+                for j in range(len(freed) + 1):
+                    ops += [('ins', 0, 200 + j, 1, 0, 0)]
+                ops += [D] * (2 * len(freed) + 1) + [F]
+                add('ids_%d' % n, cfg, ops)
+        # -- roles: every neighbour role x every source role x route reflector or not x echo
+        for nrole in (EBGP, RSC, IBGP, RRC, CONFED):
+            for srole in (EBGP, RSC, IBGP, RRC, CONFED):
+                for cluster in (False, True):
+                    for addr in (9, 1):
+                        for mx in (1, 2):
+                            asn = LOCAL_ASN if srole in (IBGP, RRC) else 65010
+                            cfg = self.mkcfg(mx, role=nrole, addr=addr, cluster=cluster,
+                                             srcs=[(1, srole, asn), (2, EBGP, 65011)])
+                            add('roles', cfg, [('ins', 0, 0, 1, 0, 0), R, F, ('ins', 0, 1, 1, 0, 0), D, F,
+                                               ('ins', 1, 0, 0, 0, 0), D, F, ('rem', 1, 0), D, F])
+        # -- repl: implicit replacement of the path at each rank, by each kind of successor
+        kinds = {'same': (None, 0, 0), 'better': (0, 0, 0), 'rejected': (3, 0, 0), 'filtered': (None, 1, 0),
+                 'nhinv': (None, 0, 1)}
+        for mx in (1, 2, 3):
+            for pos in (0, 1, 2):
+                for kind, (tk, fl_, nh) in kinds.items():
+                    for pol in (False, True):
+                        cfg = self.mkcfg(mx, policy=pol, nsrc=3)
+                        base = [('ins', j, 0, j if j else 1, 0, 0) for j in range(3)]   # toks 1,1,2: ranks 0,1,2
+                        t0 = base[pos][3] if tk is None else tk
+                        ops = base + [R, F, ('ins', pos, 0, t0, fl_, nh), D, F,
+                                      ('ins', pos, 0, base[pos][3], 0, 0), D, F]
+                        add('repl_' + kind, cfg, ops)
+        # -- llgr: a source is marked LLGR-stale with its path at each rank, at several moments
+        for mx in (1, 2, 3):
+            for pos in (0, 1, 2):
+                cfg = self.mkcfg(mx, nsrc=3)
+                base = [('ins', j, 0, j, 0, 0) for j in range(3)]
+                add('llgr', cfg, base + [R, F, ('llgr', pos), D, D, D, F])
+                add('llgr', cfg, base + [R, ('llgr', pos), D, D, D, F])                     # dump still buffered
+                add('llgr', cfg, base + [R, F, ('rem', (pos + 1) % 3, 0), ('llgr', pos), D, D, D, D, F])
+                add('llgr', cfg, base + [R, F, ('llgr', pos), ('llgr', pos), D, D, D, D, D, D, F,
+                                         ('rem', pos, 0), D, F, ('ins', pos, 0, 0, 0, 0), D, F])
+        # -- refresh / policy: before the session, on an empty RIB, twice, around policy changes
+        for mx in (1, 2):
+            cfg = self.mkcfg(mx, nsrc=2, policy=True)
+            i0, i1 = ('ins', 0, 0, 1, 0, 0), ('ins', 1, 0, 3, 0, 0)
+            add('refresh', cfg, [('refresh',), R, ('refresh',), F, ('refresh',), ('refresh',), F])
+            add('refresh', cfg, [i0, i1, ('refresh',), R, F, ('refresh',), F, ('refresh',), ('refresh',), F])
+            add('policy', cfg, [i0, i1, R, F, ('policy', 1), ('refresh',), F, ('policy', 0), ('refresh',), F])
+            add('policy', cfg, [i0, i1, R, ('policy', 1), ('refresh',), F, ('policy', 0), ('refresh',), F])
+            add('policy', cfg, [R, F, ('policy', 1), i0, i1, D, D, ('refresh',), F, ('rem', 0, 0), D, ('policy', 0),
+                                ('refresh',), F])
+        # -- nhflap: the next hop of the best / of another candidate goes away and comes back
+        for mx in (1, 2):
+            for t in (0, 1):
+                cfg = self.mkcfg(mx, nsrc=3)
+                base = [('ins', 0, 0, 0, 0, 0), ('ins', 1, 0, 1, 0, 0), ('ins', 2, 1, 1, 0, 0)]
+                add('nhflap', cfg, base + [R, F, ('nhv', t, 0), D, D, F, ('nhv', t, 1), D, D, F])
+                add('nhflap', cfg, base + [R, F, ('nhv', t, 0), ('nhv', t, 1), D, D, D, D, F])
+                add('nhflap', cfg, [R, ('nhv', t, 0)] + base + [D, D, D, F, ('nhv', t, 1), D, D, F])
+                add('nhflap', cfg, base + [R, F, ('nhv', t, 0), D, D, ('rem', 0, 0), D, ('nhv', t, 1), D, D, F])
+        # -- session: start on an empty RIB, restart with things pending, stop, GR stale and purge
+        for mx in (1, 2):
+            cfg = self.mkcfg(mx, nsrc=2)
+            i0, i1 = ('ins', 0, 0, 0, 0, 0), ('ins', 1, 1, 1, 0, 0)
+            add('session', cfg, [R, F, i0, D, F])
+            add('session', cfg, [i0, R, i1, D, R, F])                       # restart with a dump and a reach pending
+            add('session', cfg, [i0, R, F, ('rem', 0, 0), D, R, F])         # restart with a withdrawal pending
+            add('session', cfg, [i0, R, F, ('unregister',), i1, ('rem', 0, 0), D, F, R, F])
+            add('session', cfg, [i0, i1, R, F, ('stale', 0), D, F, ('dropstale', 0), D, F])
+            add('session', cfg, [i0, i1, R, F, ('stale', 0), ('ins', 0, 0, 1, 0, 0), D, D, ('dropstale', 0), D, F])
+            add('session', cfg, [i0, i1, R, F, ('dropstale', 0), ('drop', 1), D, F, ('drop', 1), D, F])
+        return out
+
     def gen_cases(self, rng, tier):
-        cases = []
-        n = 1200 if tier == 'quick' else 6000
+        cases = self.directed()
+        n = 1000 if tier == 'quick' else 6000
         for k in range(n):
             crowded = k % 3 == 2
             cfg = self.gen_cfg(rng, crowded)
@@ -626,11 +799,12 @@ class Prop:
 
     def classify(self, c, obs):
         g = c['cfg']
-        tags = ['max_%d' % g['max'], 'role_%d' % g['role']]
+        tags = ['max_%d' % g['max'], 'role_%d' % g['role'], 'class_' + c.get('cls', 'random')]
+        if g.get('shard', 0): tags.append('shard_%d' % g['shard'])
         n = len(c['ops'])
         tags.append('len_%s' % ('0-10' if n <= 10 else '11-30' if n <= 30 else '31+'))
         kinds = {o[0] for o in c['ops']}
-        for k in ('drop', 'llgr', 'refresh'):
+        for k in ('drop', 'llgr', 'refresh', 'policy', 'nhv', 'stale', 'dropstale', 'unregister'):
             if k in kinds: tags.append('has_' + k)
         if c['ops'].count(('register',)) > 1: tags.append('re_register')
         return tags
